@@ -35,9 +35,10 @@ import (
 var bg = context.Background()
 
 type config struct {
-	Kind     string   `json:"list_kind"` // Repositories | Tags | Referrers
-	Layers   []string `json:"layers"`    // bottom-up, e.g. ["unify","http","sub","http"]
-	PageSize []int    `json:"page_size"` // per http layer
+	Kind     string   `json:"list_kind"`               // Repositories | Tags | Referrers
+	ArtType  string   `json:"artifact_type,omitempty"` // Referrers: the artifact type asked for
+	Layers   []string `json:"layers"`                  // bottom-up, e.g. ["unify","http","sub","http"]
+	PageSize []int    `json:"page_size"`               // per http layer
 	MaxPage  []int    `json:"server_max_page"`
 	OmitLink []bool   `json:"omit_link"`
 	N        int      `json:"set_size"`
@@ -201,7 +202,8 @@ func runCase(run *evid.Run, idx int) {
 
 	// contents, as seen from the top of the stack
 	hasSub, hasSelect := contains(c.Layers, "sub"), contains(c.Layers, "select")
-	var want []string // what the caller must see (before start/stop)
+	var want []string              // what the caller must see (before start/stop)
+	otherType := map[string]bool{} // referrers of the subject whose artifact type is not the one asked for
 	m0, m1 := ocimem.New(), ocimem.New()
 	members := []ociregistry.Interface{m0}
 	if base == "unify" {
@@ -300,14 +302,31 @@ func runCase(run *evid.Run, idx int) {
 			}
 		}
 		run.Count(fmt.Sprintf("referrers_subject_mode/%d", subjectMode), 1)
+		// a third of the referrers listings ask for one artifact type; the referrers state that type,
+		// another one, or none (an image manifest without the field has its config's media type)
+		const sbom = "application/vnd.example.sbom.v1"
+		if rng.IntN(3) == 0 {
+			c.ArtType = sbom
+		}
 		for i := 0; i < c.N; i++ {
-			mf := []byte(fmt.Sprintf(`{"schemaVersion":2,"mediaType":%q,"config":{"mediaType":"application/octet-stream","digest":%q,"size":2},"layers":[],"subject":{"mediaType":"application/x-opaque","digest":%q,"size":%d},"annotations":{"i":"%d-%d"}}`,
-				model.MTImage, model.Digest([]byte("{}")), subject, len(subj), idx, i))
+			at := ""
+			switch (i + idx) % 3 {
+			case 0:
+				at = `"artifactType":"` + sbom + `",`
+			case 1:
+				at = `"artifactType":"application/vnd.example.signature.v1",`
+			}
+			mf := []byte(fmt.Sprintf(`{"schemaVersion":2,"mediaType":%q,%s"config":{"mediaType":"application/octet-stream","digest":%q,"size":2},"layers":[],"subject":{"mediaType":"application/x-opaque","digest":%q,"size":%d},"annotations":{"i":"%d-%d"}}`,
+				model.MTImage, at, model.Digest([]byte("{}")), subject, len(subj), idx, i))
 			put(func(reg ociregistry.Interface) {
 				if _, err := reg.PushManifest(bg, name, "", mf, model.MTImage); err != nil {
 					panic(fmt.Sprintf("setup: referrer manifest: %v", err))
 				}
 			})
+			if c.ArtType != "" && (i+idx)%3 != 0 {
+				otherType[model.Digest(mf)] = true
+				continue
+			}
 			want = append(want, model.Digest(mf))
 		}
 		if subjectMode == 3 {
@@ -418,9 +437,13 @@ func runCase(run *evid.Run, idx int) {
 	if rng.IntN(3) == 0 {
 		c.Stop = 1 + rng.IntN(len(expect)+2)
 	}
+	if c.ArtType != "" {
+		// (a consumer that counts items would count the ones of other types too, see below)
+		c.Stop = 0
+	}
 
 	// the listing itself
-	op := &model.Op{Kind: c.Kind, Repo: listRepo, StartAfter: c.Start, StopAfter: c.Stop, Digest: subject, MaxItems: 3*len(want) + 50}
+	op := &model.Op{Kind: c.Kind, Repo: listRepo, StartAfter: c.Start, StopAfter: c.Stop, Digest: subject, MaxItems: 3*(len(want)+len(otherType)) + 50, ArtifactType: c.ArtType}
 	env := model.NewEnv(reg)
 	// without injected faults the sequence is ranged over a second time and has to repeat itself
 	env.Reiterate = c.Fault == ""
@@ -437,7 +460,26 @@ func runCase(run *evid.Run, idx int) {
 			got = append(got, d)
 		}
 	}
-	shape := fmt.Sprintf("%s/%s/n=%s/p=%v/start=%s/stop=%v/fault=%s", c.Kind, strings.Join(c.Layers, ">"), sizeClass(c.N, p), c.PageSize, c.StartCls, c.Stop > 0, c.Fault)
+	if c.ArtType != "" {
+		// "If artifactType is non-zero, the results will be restricted to only manifests with that type":
+		// items of another type are reported under their own key and then set aside, so that what is
+		// judged below - completeness, order, exactly-once - is the listing of the matching items
+		run.Count("referrers_listings_by_artifact_type", 1)
+		var kept, extra []string
+		for _, g := range got {
+			if otherType[g] {
+				extra = append(extra, g)
+			} else {
+				kept = append(kept, g)
+			}
+		}
+		if len(extra) > 0 {
+			run.Violation("artifact-type-ignored/Referrers", fmt.Sprintf("Referrers(artifactType=%q) delivered %d manifest(s) that state another artifact type (of %d referrers of the subject, %d state the type asked for)", c.ArtType, len(extra), len(want)+len(otherType), len(want)),
+				map[string]any{"config": c, "delivered": got, "of_other_type": extra})
+		}
+		got = kept
+	}
+	shape := fmt.Sprintf("%s/%s/n=%s/p=%v/start=%s/stop=%v/fault=%s", c.Kind, strings.Join(c.Layers, ">"), sizeClass(c.N, p), c.PageSize, c.StartCls, c.Stop > 0, c.Fault) + map[bool]string{true: "/by-artifact-type"}[c.ArtType != ""]
 	run.Distinct(shape)
 	run.Count("listings/"+c.Kind, 1)
 	w := map[string]any{"config": c, "expected": expect, "got": got, "outcome_error": out.Err}
